@@ -130,13 +130,13 @@ def run_check(tier):
     w = run_one(cases[0], budget, witness=True)
     out.cov['witness_ok'] = any('witness' in f[1] for f in w['failed'])
     if not out.cov['witness_ok']: out.errors.append('vacuity witness: no complete run reachable (%s)' % w['verdict'])
-    res = pmap(lambda c: run_one(c, budget), cases, jobs=3 if tier == 'quick' else 4)
+    res = pmap(lambda c: run_one(c, budget), cases, jobs=3 if tier == 'quick' else 2)
     for r in res:
         c = r['case']; out.cov['obligations'] += 1; out.cov['solver_time_s'] += r['wall']
         if r['verdict'] == 'SUCCESS': out.cov['discharged'] += 1; continue
-        if r['verdict'] == 'TIMEOUT' and tier != 'quick':
+        if (r['verdict'] == 'TIMEOUT' or (r['verdict'] == 'ERROR' and 'out of memory' in r['out'] + r['err'])) and tier != 'quick':
             # a multi-worker instance that does not come back within the budget is not explored: said so, neither held nor failed
-            print('NOT-EXPLORED: %s did not finish within %d s' % (r['name'], budget)); out.cov.setdefault('not_explored', []).append(r['name']); out.cov['obligations'] -= 1; continue
+            print('NOT-EXPLORED: %s did not finish within %d s / %d GB' % (r['name'], budget, 24)); out.cov.setdefault('not_explored', []).append(r['name']); out.cov['obligations'] -= 1; continue
         if r['verdict'] != 'FAILED': out.errors.append('%s: %s %s' % (r['name'], r['verdict'], r['err'][-160:].strip().replace('\n', ' '))); continue
         fl = [(f[0], re.sub(r'^line \d+ ', '', f[1])) for f in r['failed']]
         viol = [f for f in fl if f[1].startswith('C12 ')]
